@@ -104,6 +104,9 @@ class Ctx:
         self._fx = facts_mod.load(self._facts_path, crates=set(crates) if crates is not None else None)
         self._fx_crates = set(crates) if crates is not None else None
         self._cg = None
+        if os.environ.get('TP_NO_INLINE') != '1':
+            from . import inline
+            self.inline_info = inline.apply(self._fx, log=self.log)
         print('tprules: loaded %d bodies, %d match tables from %s in %.1fs' % (
             len(self._fx.fns), len(self._fx.matches), sorted(self._fx.crates), time.time() - t), file=self.log)
         return self._fx
